@@ -4,6 +4,8 @@
 # http://docs.glueviz.org/en/stable/developer_guide/data.html and transparently
 # applying changes.
 
+import numpy as np
+
 from glue.core.hub import HubListener
 from glue.core.data import BaseCartesianData
 from glue.core.message import NumericalDataChangedMessage
@@ -136,8 +138,14 @@ class IndexedData(BaseCartesianData, HubListener):
         return self._original_data.get_kind(cid)
 
     def _to_original_view(self, view):
-        if view is None:
-            view = [slice(None)] * self.ndim
+        # Normalize the view to a tuple with one entry per dimension
+        if view is None or view is Ellipsis:
+            view = ()
+        elif isinstance(view, np.ndarray) and view.dtype.kind == 'b':
+            view = np.nonzero(view)
+        elif not isinstance(view, (tuple, list)):
+            view = (view,)
+        view = tuple(view) + (slice(None),) * (self.ndim - len(view))
         original_view = list(self.indices)
         idim_reduced = 0
         for idim in range(self._original_data.ndim):
